@@ -18,9 +18,9 @@ import (
 // ---- C05: proxyIDRingBuffer vs the Lean model (engine "ring") -------------------------------
 
 type refEntry struct {
-	id          int64
-	cl, sh      int32
-	task        int64
+	id     int64
+	cl, sh int32
+	task   int64
 }
 
 // ringRef is the plain reference the property statement talks about: the outstanding entries
@@ -297,10 +297,10 @@ func genRingHistory(e *Env, maxOps int, big bool) []string {
 // exhaustive enumeration of short histories over a small alphabet (capacities 1..3)
 func enumRing(e *Env, t *testing.T, depth int, run func([]string)) {
 	type st struct {
-		ops        []string
-		next, lo   int64
-		size       int64
-		task       int64
+		ops      []string
+		next, lo int64
+		size     int64
+		task     int64
 	}
 	var rec func(s st, d int)
 	rec = func(s st, d int) {
